@@ -435,7 +435,7 @@ Qed.
 (* where the lines come from: the head block of the run *)
 Definition head_lines (hp fl : bytes) (lines : list bytes) : Prop :=
   exists index, find hp CRLF = Some index /\
-                fl = rstrip_by is_bytes_ws (firstn index hp) /\
+                fl = rstrip_by is_reqline_ws (firstn index hp) /\
                 get_header_lines (skipn (index + 2) hp) = inr lines.
 
 Theorem fields_image a ds p :
